@@ -119,7 +119,8 @@ def gen_case(rng):
     names = []
     nm = rng.randrange(1, 4)
     for i in range(nm):
-        params = rng.sample(["p", "q", "r"], rng.randrange(0, 3))
+        # parameter names occasionally coincide with local / outer label names: `$a` and `a` are different things
+        params = rng.sample(["p", "q", "r", "a", "loop", "o1"] if rng.random() < 0.35 else ["p", "q", "r"], rng.randrange(0, 3))
         # local labels deliberately clash with outer labels / labels used in arguments
         local = rng.sample(["a", "o1", "loop"], rng.randrange(0, 3))
         body = []
@@ -183,6 +184,14 @@ def designed():
                     L, J, ("macro", "outer", [("lbl", "o2"), ("lbl", "top")])] + tail)
         # definitions after use
         out.append([ident, L, J, ("macro", "outer", [("lbl", "top")])] + tail + [inn, ("defi", "outer", ["t"], [L, J, ("macro", "inner", [("var", "t")])])])
+    # a parameter named like a local label of the same macro / like an outer label the body mentions
+    pc = ("op", "pc", None)
+    for pw in ("push1", "push2"):
+        out.append([ident, ("defi", "m", ["top"], [L, J, ("op", pw, ("var", "top")), ("op", pw, ("lbl", "top"))]), pc, ("macro", "m", [("num", 0x42)])] + tail)
+        out.append([ident, ("defi", "m", ["top"], [L, J, ("push", G.climb([("var", "top"), "+", ("lbl", "top")]))]), pc, pc, ("macro", "m", [("num", 0x42)]), ("macro", "m", [("lbl", "o2")])] + tail)
+        out.append([ident, ("defi", "m", ["o2"], [("op", pw, ("var", "o2")), ("op", pw, ("lbl", "o2"))]), pc, ("macro", "m", [("num", 7)])] + tail)
+        out.append([ident, ("defi", "inner", ["top"], [("op", pw, ("var", "top"))]), ("defi", "m", ["top"], [L, J, ("macro", "inner", [("lbl", "top")]), ("macro", "inner", [("var", "top")])]),
+                    pc, ("macro", "m", [("num", 9)])] + tail)
     return out
 
 
